@@ -185,9 +185,11 @@ class FaultClf(object):
                 rsp, ex, rd = self._process(data)
             elif cc == "ssel2":
                 self.sim.pending = False       # the tag leaves the SECTOR SELECT state after 1 ms without packet 2
-            self.ev.append(dict(e="Fault", k=self.script["k"], ex=bool(ex)))
+            # burst of mixed kinds: the first fault is of kind k1, the later ones of kind k
+            kind = self.script["k1"] if "k1" in self.script and self.left == self.script["b"] - 1 else self.script["k"]
+            self.ev.append(dict(e="Fault", k=kind, ex=bool(ex)))
             self.last = "fault"
-            raise EXC[self.script["k"]]("scripted")
+            raise EXC[kind]("scripted")
         rsp, ex, rd = self._process(data)
         if rsp is None and cc == "act":
             # a probe the tag does not know: silence is the tag's answer (the code takes the time-out for "unsupported")
@@ -681,6 +683,15 @@ def gen_traces(tier, only=None, entries=None):
                                   doc=fdoc, gone=True, noraise=never_raises(cname, fname))
                     traces.append(dict(id=fid, const=fconst, ev=clf2.ev))
                     meta[fid] = dict(cls=cname, op=oname + "+" + fname, script=dict(gone=k, then=fname))
+            # bursts of mixed kinds, long enough to exhaust every budget of the class: the reason code must be the one of the
+            # final attempt
+            mixed = [dict(p=p, k1=k1, k=k) for p in range(1, clf.npos + 1) for k1 in KINDS for k in KINDS if k != k1]
+            for mx in mixed:
+                sc = dict(mx, b=max(bursts), m="before")
+                p2, n2, clf2, sim2, tag2 = run_one(factory, setup, op, sc)
+                tid = "%s/p%d-%s-then-%s" % (base, mx["p"], mx["k1"], mx["k"])
+                traces.append(dict(id=tid, const=const, ev=clf2.ev))
+                meta[tid] = dict(cls=cname, op=oname, script=sc)
             for k in range(1, clf.nmac + 1):
                 p2, n2, clf2, sim2, tag2 = run_one(factory, setup, op, dict(mac=k))
                 tid = "%s/bad-mac-at-read%d" % (base, k)
@@ -688,7 +699,7 @@ def gen_traces(tier, only=None, entries=None):
                 meta[tid] = dict(cls=cname, op=oname, script=dict(mac=k))
             traces.append(dict(id=base + "/cover", const=const,
                                ev=[dict(e="Cover", N=clf.npos, bursts=list(bursts), scripts=scs, S=clf.nsense,
-                                        gone=list(range(1, clf.nsense + 1)), M=clf.nmac,
+                                        gone=list(range(1, clf.nsense + 1)), M=clf.nmac, mixed=mixed,
                                         mac=list(range(1, clf.nmac + 1)))]))
             meta[base + "/cover"] = dict(cls=cname, op=oname, script="cover")
     return traces, meta
